@@ -557,6 +557,12 @@ func deriveTripCount(loop *Loop) {
 				loop.TripCount = &SCEVUnknown{Value: nil}
 				return
 			}
+		} else {
+			// A step that is not a constant (`i += s`) can have either sign: the formulas below
+			// divide by it as if it moved towards the limit (n=-5, s=-1 gave 7 for a loop that
+			// never runs).
+			loop.TripCount = &SCEVUnknown{Value: nil}
+			return
 		}
 	}
 
